@@ -509,6 +509,31 @@ def dispatch(ctx: Any) -> List[Ob]:
     from .c16 import dispatch_obligations
 
     obs.extend(dispatch_obligations(ctx, R, 'query'))
+    # the services a strategy answers from are ALL the registry returned for the asked name: the list handed to a strategy is
+    # the look-up result itself (or the single description of an instance question), never a slice or a filtered copy --
+    # services that share a type or a host name may have different records, and each must be answered for
+    gs = prog.func(QH + '._get_answer_strategies')
+    gdefs = local_defs(gs)
+    n_strat = 0
+    for c in walk_local_ordered(gs.node):
+        if not (isinstance(c, ast.Call) and call_name(c) == '_AnswerStrategy' and len(c.args) >= 4):
+            continue
+        n_strat += 1
+        a3 = c.args[3]
+        good_s, why_s = False, f'services argument `{norm(a3)}`'
+        if isinstance(a3, ast.Name):
+            vals = [v for v in gdefs.get(a3.id, []) if v is not None]
+            good_s = bool(vals) and all(isinstance(v, ast.Call) and isinstance(v.func, ast.Attribute) and self_attr(v.func.value, gs.params[0]) == 'registry' for v in vals)
+            why_s += f' = {[norm(v) for v in vals]}'
+        elif isinstance(a3, ast.List) and len(a3.elts) == 1 and isinstance(a3.elts[0], ast.Name):
+            vals = [v for v in gdefs.get(a3.elts[0].id, []) if v is not None]
+            good_s = bool(vals) and all(isinstance(v, ast.Call) and isinstance(v.func, ast.Attribute) and self_attr(v.func.value, gs.params[0]) == 'registry' for v in vals)
+        elif isinstance(a3, ast.Name) or (isinstance(a3, ast.Attribute)):
+            good_s = False
+        if isinstance(a3, (ast.Name, ast.List)) or not good_s:
+            obs.append(ob(R, gs, c, 'a strategy answers from every service the registry returned for the asked name (the look-up result as it is)', good_s or (isinstance(a3, ast.Name) and a3.id.startswith('_EMPTY')), why_s))
+    if n_strat < 4:
+        raise AnalysisError(f'anchor vanished: strategy constructions in _get_answer_strategies (found {n_strat})')
     return obs
 
 
